@@ -80,6 +80,9 @@ def main():
         meta = json.load(open(mp))
         meta["checks_run_against_it"] = results
         meta["detected"] = any(x["exit"] == 1 for x in results.values())
+        if "first_pass" not in meta:
+            own = results.get(pid, {})
+            meta["first_pass"] = "failing input" if own.get("found_failing_input") else "soft" if own.get("exit") == 1 else "missed"
         meta["applies_to_head"] = True
         meta["applied_with"] = how
         meta["swept_at_repo_head"] = head[:7]
